@@ -532,6 +532,10 @@ def impl_listen(trecv, nrecv, clients, free_clock=False):
                 dead = True
             except S.ScriptExhausted:
                 marks[len(net.accepted) - 1] = 5
+            except Exception as e:      # nothing may escape the accept loop: the listener thread would die
+                dead = True
+                marks[len(net.accepted) - 1] = 6
+                net.escaped = "%s: %s" % (type(e).__name__, str(e)[:80])
             done = len(net.accepted) + sum(1 for e in net.log if e[0] == "accept-timeout")
             todo -= max(done - before, 1)
     out = []
@@ -613,6 +617,12 @@ def _run(ctx, res):
         served = [b for who, b in cr.calls if who == len(net.accepted) - 1]
         if len(net.accepted) != sum(1 for c in clients if c is not None):
             served = []
+        if getattr(net, "escaped", None):
+            res.failures.append(dict(
+                signature="exception-kills-listener", what="accept loop: %s escaped _tcp_incoming (%s)"
+                % (net.escaped, name), case=dict(listen=name, clients=[None if c is None else dict(
+                    stream=c[0].hex(), spec=c[1], clock=c[2]) for c in clients], trecv=3, nrecv=2048), detail=out))
+            continue
         if any(o[0] == 4 for o in out):
             res.failures.append(dict(
                 signature="silent-client-blocks-listener",
@@ -648,6 +658,33 @@ def _run(ctx, res):
     res.traces_validated += len(lcases) - len(mism2)
     for idx, model_out in mism2:
         res.mismatches.append(dict(case=dict(listen=lmeta[idx][0]), impl=lmeta[idx][2], model=model_out))
+
+    # bytes that trickle in late, then silence: the give-up bound must hold from the accept, not from the
+    # last byte (oracle only: free-running clock, Delayed reads)
+    for trecv in (1, 2, 3, 5):
+        for dt in (0.5, trecv - 1, trecv - 0.5):
+            for tail in (S.TIMEOUT, S.CLOSED):
+                dist, dec, cr = get_dist("aes", trecv, 2048)
+                cr.calls, cr.net = [], None
+                clock = S.FakeClock(start=1000.0, tick=0.02)
+                client = S.ScriptedClient([S.Delayed(dt, b"abc"), S.Delayed(dt, b"def"), tail], clock)
+                hung = False
+                with S.installed(None, clock):
+                    try:
+                        dist.handle_client(client, "10.0.0.2", 1000)
+                    except S.BlockedForever:
+                        hung = True
+                    except Exception:
+                        pass
+                res.note_case(("late", trecv, dt, tail), True)
+                res.count("late_bytes")
+                if not hung and clock.now > 1000 + trecv + 1.0 + 1e-9:
+                    res.failures.append(dict(
+                        signature="give-up-later-than-receive-timeout",
+                        what="bytes arriving %.1f s apart, then %s: connection given up %.2f s after accept, "
+                             "timeout_receive=%d" % (dt, tail, clock.now - 1000, trecv),
+                        case=dict(late=True, trecv=trecv, dt=dt, tail=tail),
+                        detail=[e for e in client.log if e[0] == "recv"]))
 
     # a connection reset (not in the model: oracle only) must not stop the listener either
     aes = dict(aes_messages(True))
@@ -692,6 +729,20 @@ def _run(ctx, res):
 # --------------------------------------------------------------------------------------------- replay
 def replay(obj):
     case = obj.get("case") or {}
+    if case.get("late"):
+        dist, dec, cr = get_dist("aes", case["trecv"], 2048)
+        clock = S.FakeClock(start=1000.0, tick=0.02)
+        client = S.ScriptedClient([S.Delayed(case["dt"], b"abc"), S.Delayed(case["dt"], b"def"), case["tail"]], clock)
+        with S.installed(None, clock):
+            try:
+                dist.handle_client(client, "10.0.0.2", 1000)
+            except BaseException as e:   # noqa: B902
+                print("handler ended with", type(e).__name__, e)
+        print("recv calls (n, socket timeout, result, bytes):", [e[1:] for e in client.log if e[0] == "recv"])
+        late = clock.now > 1000 + case["trecv"] + 1.0
+        print("given up %.2f s after accept; timeout_receive=%d" % (clock.now - 1000, case["trecv"]))
+        print("FAILS: later than timeout_receive (+1 s for the integer clock)" if late else "ok")
+        return 1 if late else 0
     if "listen" in case:
         if "clients" not in case:
             print(obj)
